@@ -4,5 +4,8 @@ python3-vt - <<'PY'
 import json, glob, jsonschema
 sch = json.load(open('/root/.vp/EVIDENCE.schema.json'))
 for f in sorted(glob.glob('/verif/evidence/*.json')):
-    jsonschema.validate(json.load(open(f)), sch); print('ok', f)
+    try:
+        jsonschema.validate(json.load(open(f)), sch); print('ok', f)
+    except Exception as e:
+        print('BAD', f, str(e)[:120].replace('\n', ' '))
 PY
